@@ -182,6 +182,7 @@ func (c *connection) send(conn net.Conn, connDone chan bool) {
 				continue
 			}
 		}
+		verifC11AfterDequeue(c, conn, m.req)
 		if !c.isCurrent(conn) {
 			// this connection has been closed meanwhile: leave the message to the goroutine of the current one
 			c.client.sendFailQueue <- m
